@@ -85,7 +85,8 @@ LW == O.maxPos - O.minPos
 UsedLayers == Cardinality({k \in 1..K : NonEmpty(k)})
 \* "labels that fit the density budget": required width <= density * layer width.  With a dyadic density the product is exact
 \* in the code's floats, so equality is decided; otherwise only the strict case is (a tie admits both outcomes)
-DyadicDensity == O.densD \in {1, 2, 4, 8}
+\* (and only on the quarter-unit lattice, where the code's float sums are exact: two-decimal values are not dyadic)
+DyadicDensity == O.densD \in {1, 2, 4, 8} /\ U = 4
 C04_SingleLayer ==
     /\ (O.alg = "none" \/ ~HasWidth) => UsedLayers = 1
     /\ (HasWidth /\ Required(T.labels) * O.densD < O.densN * LW) => UsedLayers = 1
